@@ -130,12 +130,18 @@ def load(profile="dev", features=None, crate="indextree", repo=None):
     return _loaded[k]
 
 
-def prune_cache(keep=40):
-    """Keep the cache bounded (oldest entries first)."""
+def prune_cache(keep=300, min_age_s=1800):
+    """Keep the cache bounded (oldest entries first).  Entries younger than `min_age_s` are never touched: another check running in parallel may be
+    building them (`*.tmp<pid>` directories) or about to read them."""
+    import time
     try:
+        now = time.time()
         ents = [os.path.join(CACHE, e) for e in os.listdir(CACHE) if os.path.isdir(os.path.join(CACHE, e))]
-        ents.sort(key=lambda p: os.path.getmtime(p))
-        for p in ents[:-keep]:
+        ents = [(os.path.getmtime(p), p) for p in ents]
+        ents.sort()
+        old = [p for (m, p) in ents if now - m > min_age_s]
+        excess = max(0, len(ents) - keep)
+        for p in old[:excess]:
             shutil.rmtree(p, ignore_errors=True)
             try:
                 os.remove(p + ".lock")
